@@ -575,21 +575,55 @@ def run (st : St) : Ast → Res St
     let st' ← doStmt st s
     run st' rest
 
+/-- "If no `Ext_User_Prm` was present, commit the legacy Prm data into the gsd struct." -/
+def commitLegacy (st : St) : Desc :=
+  match st.legacy with
+  | some prm => { st.gsd with userPrmData := prm }
+  | none => st.gsd
+
+/-- "When no Max_Module was set, default to 1" -/
+def defaultMaxModules (seen : Bool) (g : Desc) : Desc :=
+  if seen then g else { g with maxModules := 1 }
+
+/-- "If this is a compact station, only allow one module" -/
+def compactStation (g : Desc) (maxSeen modularSeen : Bool) (ws : List Warn) : Res (Desc × List Warn) :=
+  -- `max_modules_span.or(modular_station_span).unwrap()`
+  if g.maxModules ≠ 1 ∧ maxSeen = false ∧ modularSeen = false then .panic
+  else
+    let w1 := if g.maxModules ≠ 1 then [Warn.compactMax] else []
+    let w2 := if g.availableModules.length ≠ 1 then [Warn.compactModules] else []
+    .ok ({ g with maxModules := 1 }, ws ++ w1 ++ w2)
+
 /-- Post-processing after the statement loop. -/
 def finish (st : St) : Res (Desc × List Warn) :=
-  let g := st.gsd
-  let g := match st.legacy with
-    | some prm => { g with userPrmData := prm }
-    | none => g
-  let g := if st.maxModulesSeen then g else { g with maxModules := 1 }
+  let g := defaultMaxModules st.maxModulesSeen (commitLegacy st)
   if g.modularStation then .ok (g, st.warnings)
-  else
-    -- `max_modules_span.or(modular_station_span).unwrap()`
-    if g.maxModules ≠ 1 ∧ ¬ st.maxModulesSeen ∧ ¬ st.modularSeen then .panic
-    else
-      let w1 := if g.maxModules ≠ 1 then [Warn.compactMax] else []
-      let w2 := if g.availableModules.length ≠ 1 then [Warn.compactModules] else []
-      .ok ({ g with maxModules := 1 }, st.warnings ++ w1 ++ w2)
+  else compactStation g st.maxModulesSeen st.modularSeen st.warnings
+
+/-! ### Class predicate of the open finding `K_C19_unindexed` -/
+
+/-- Keys of the top-level `setting` arm that call `pairs.next().unwrap()` a second time. -/
+def indexedTop : List Str :=
+  ["ext_user_prm_data_ref".toList, "ext_user_prm_data_const".toList, "unit_diag_bit".toList,
+   "unit_diag_bit_help".toList, "unit_diag_not_bit".toList, "unit_diag_not_bit_help".toList]
+
+/-- The same inside `Module … EndModule`. -/
+def indexedModule : List Str := ["ext_user_prm_data_ref".toList, "ext_user_prm_data_const".toList]
+
+def Setting.unindexedTop (s : Setting) : Bool := s.index.isNone && indexedTop.contains (lower s.key)
+def Setting.unindexedModule (s : Setting) : Bool := s.index.isNone && indexedModule.contains (lower s.key)
+
+def ModItem.unindexed : ModItem → Bool
+  | .setting s => s.unindexedModule
+  | _ => false
+
+def Stmt.unindexed : Stmt → Bool
+  | .setting s => s.unindexedTop
+  | .module m => m.items.any ModItem.unindexed
+  | _ => false
+
+/-- The file contains a setting whose key needs an `(index)` but is written without one. -/
+def hasUnindexed (ast : Ast) : Bool := ast.any Stmt.unindexed
 
 /-- The interpretation of a whole file. -/
 def interp (ast : Ast) : Res (Desc × List Warn) := do
